@@ -1,5 +1,6 @@
 import OtelVerif.Common.Line
 import OtelVerif.Model.C20
+import OtelVerif.Model.C20Sig
 /-! driver for C20: model `c20-runloop` (the repaired `Shutdown()` guard, `Variant.fixed`) -/
 open OtelVerif OtelVerif.Line OtelVerif.C20
 
@@ -51,7 +52,9 @@ def showObs (s : S) : String :=
   s!"obs st={s.st.name} closed={if s.chanClosed then 1 else 0} gen={s.gen} live={showNats (isort s.live)} sd={sd} prov={s.provSd} ret={ret}"
 
 def okOf : String → Option Bool
-  | "ok" => some true | "fail" => some false | "getfail" => some false | "newfail" => some false | _ => none
+  | "ok" => some true | "fail" => some false | "getfail" => some false | "newfail" => some false
+  -- the configuration fails xconfmap.Validate / does not unmarshal: further early returns of setupConfigurationComponents
+  | "invalid" => some false | "badkey" => some false | _ => none
 
 /-- one harness op = a list of labels, then the infallible statements up to the next parking point -/
 def opLabels (s : S) : List String → Option (List Label)
@@ -68,6 +71,8 @@ def opLabels (s : S) : List String → Option (List Label)
   | ["post", "fatal"] => some [.fatal]   -- a component reported StatusFatalError through the real host
   | ["post", e] => (Ev.ofName e).map (fun e => [.post e])
   | ["cancel"] => some [.cancel]
+  -- Collector.DryRun before Run: no label — it performs none of the modelled effects (C20_dry_run_and_shutdown_effects_match_source)
+  | ["dryrun", _] => if s.pc = .idle then some [] else none
   | "scen" :: _ => some []          -- race cases: scenario descriptor only (monitored, not replayed on the model)
   | _ => none
 
@@ -145,10 +150,69 @@ def handler : Handler DS where
       (if d.watchErrSent > 0 && (d.wedged || !d.sawRet) then
          [s!"prop watcherr=FAIL sig=C20/runloop/watch-error-notification-lost sent={d.watchErrSent} and Run never returned"]
        else ["prop watcherr=ok"]) ++
+      -- the sampled state word (one `tr st` per change, first sample = the state NewCollector stored) is a path of the documented
+      -- lifecycle FSM (`fsmLogBad`, sound by `C20_fsm_check_sound`; every log of the model is accepted: `C20_model_state_trace_accepted`)
+      (match fsmLogBad d.impl.reverse with
+       | none => ["prop fsm=ok"]
+       | some (a, b) => [s!"prop fsm=FAIL sig=C20/state/transition-outside-fsm from={a.name} to={b.name}"]) ++
       (if d.callPanics = 0 then ["prop callsafe=ok"]
        else [s!"prop callsafe=FAIL sig=C20/shutdown/concurrent-call-panicked panics={d.callPanics}"])
+
+/-! ## model `c20-sig`: the signal layer `fireS` (Model/C20Sig.lean) around the same run-loop LTS -/
+
+structure DSig where
+  ss : Option SS := some {}
+  why : String := ""
+  d : DS := {}                        -- collects the implementation's trace for the same oracles as `c20-runloop`
+
+def firesS (ss : SS) (ls : List SLabel) : Option SS := ls.foldlM fireS ss
+
+def autoS (fuel : Nat) (ss : SS) : SS :=
+  match fuel with
+  | 0 => ss
+  | n + 1 => if autoPc ss.core.pc then (match fireS ss (.core (.step true)) with | some s' => autoS n s' | none => ss) else ss
+
+def drainStaleS (fuel : Nat) (ss : SS) : SS :=
+  match fuel with
+  | 0 => ss
+  | n + 1 => if ss.core.nStale > 0 then (match fireS ss (.core .giveUp) with | some s' => drainStaleS n s' | none => ss) else ss
+
+def closeAllS (fuel : Nat) (ss : SS) : Option SS :=
+  match fuel with
+  | 0 => some ss
+  | n + 1 => if ss.core.closers > 0 then (fireS ss (.core .close)).bind (closeAllS n) else some ss
+
+def shutdownCallsS (ss : SS) (k : Nat) : Option SS := do
+  let base := ss.core.closers
+  let s1 ← firesS ss (List.replicate k (.core .call))
+  closeAllS (s1.core.closers - base) s1
+
+def showObsS (ss : SS) : String := showObs ss.core ++ s!" sigq={ss.q.length}"
+
+def sigHandler : Handler DSig where
+  init := {}
+  onCase := fun st toks => { st with ss := some (initS (kvNat toks "dg" == some 1)) }
+  onOp := fun st toks =>
+    let noobs := toks.getLast? = some "noobs"
+    let toks := if noobs then toks.dropLast else toks
+    match st.ss with
+    | none => (st, if noobs then [] else ["obs model-stuck " ++ st.why])
+    | some ss =>
+      let r : Option SS :=
+        match toks with
+        | ["ossig", n] => (Sig.ofName n).bind (fun sg => fireS ss (.os sg))
+        | ["shutdown", k] => k.toNat?.bind (shutdownCallsS ss)
+        | _ => (opLabels ss.core toks).bind (fun ls => firesS ss (ls.map SLabel.core))
+      match r with
+      | none => ({ st with ss := none, why := "-".intercalate toks }, if noobs then [] else ["obs bad-op-or-label-not-enabled " ++ "-".intercalate toks])
+      | some s' =>
+        let s' := drainStaleS 8 (autoS 8 s')
+        ({ st with ss := some s' }, if noobs then [] else [showObsS s'])
+  onObs := fun st toks => { st with d := handler.onObs st.d toks }
+  onEnd := fun st => handler.onEnd st.d
 
 end OtelVerif.Drivers.C20
 
 def main : IO UInt32 :=
-  runMulti [("c20-runloop", run OtelVerif.Drivers.C20.handler), ("c20-race", run OtelVerif.Drivers.C20.handler)]
+  runMulti [("c20-runloop", run OtelVerif.Drivers.C20.handler), ("c20-race", run OtelVerif.Drivers.C20.handler),
+    ("c20-sig", run OtelVerif.Drivers.C20.sigHandler)]
